@@ -306,6 +306,42 @@ theorem C15_randInt31_accepted (n : Nat) (c : Bool) (s : Stream) (v : Nat) (rest
       · exact absurd rfl (hs _ _ _ _ _)
       · simp at h
 
+/-- the same for randInt63 and 64-bit words (`n` beyond `math.MaxInt32`, up to `2^63 - 1`) -/
+theorem C15_randInt63_accepted (n : Nat) (c : Bool) (s : Stream) (v : Nat) (rest : Stream)
+    (hn : 2 ≤ n) (hn' : n ≤ two64) (hb : Bytes s) (h : randInt63 n c s = .ok (v, rest)) :
+    ∃ x, two64 % n < x ∧ x < two64 ∧ v = x % n ∧ v < n := by
+  unfold randInt63 at h
+  have h2 : ¬ n < 2 := by omega
+  simp only [h2, ↓reduceIte] at h
+  have ht : thr63 n = two64 % n := thr_eq two64 n hn'
+  rw [ht] at h
+  clear ht
+  induction s using draw63.induct (two64 % n) c with
+  | case1 b0 b1 b2 b3 b4 b5 b6 b7 rest' x hx =>
+    have hx' : two64 % n < le64 b0 b1 b2 b3 b4 b5 b6 b7 := hx
+    simp only [draw63, gt_iff_lt, hx', ↓reduceIte, Res.ok.injEq, Prod.mk.injEq] at h
+    refine ⟨le64 b0 b1 b2 b3 b4 b5 b6 b7, hx', ?_, h.1.symm, ?_⟩
+    · have h0 := hb b0 (by simp); have h1 := hb b1 (by simp)
+      have h2 := hb b2 (by simp); have h3 := hb b3 (by simp)
+      have h4 := hb b4 (by simp); have h5 := hb b5 (by simp)
+      have h6 := hb b6 (by simp); have h7 := hb b7 (by simp)
+      unfold le64 le32 two64 two32; omega
+    · rw [← h.1]; exact Nat.mod_lt _ (by omega)
+  | case2 b0 b1 b2 b3 b4 b5 b6 b7 rest' x hx hc =>
+    have hx' : ¬ two64 % n < le64 b0 b1 b2 b3 b4 b5 b6 b7 := hx
+    simp [draw63, hx', hc] at h
+  | case3 b0 b1 b2 b3 b4 b5 b6 b7 rest' x hx hc ih =>
+    have hx' : ¬ two64 % n < le64 b0 b1 b2 b3 b4 b5 b6 b7 := hx
+    have hc' : c = false := by simpa using hc
+    subst hc'
+    simp only [draw63, gt_iff_lt, hx', ↓reduceIte] at h
+    exact ih (fun b hb' => hb b (by simp [hb'])) (by simpa using h)
+  | case4 s' hs =>
+    unfold draw63 at h
+    split at h
+    · exact absurd rfl (hs _ _ _ _ _ _ _ _ _)
+    · simp at h
+
 /-- number of accepted words with residue `r`, as the length of the interval of quotients `j`
     (see `C15_randInt_near_uniform`) -/
 def residueCount (W n r : Nat) : Nat :=
@@ -394,6 +430,36 @@ theorem C15_sample_is_reservoir (k n : Nat) (c : Bool) (s : Stream) (k' : Nat)
     rw [this]; rfl
   · simp at h
   · simp at h
+
+/-- In the round: the paths handed to the clients without a sticky path are the candidates at
+    the positions of a reservoir — `fill` receives `candidates[r]` for `r` running over
+    `reservoir n' js`, `n' = min(#clients without path, #candidates)`, `js` the values RandIntn
+    returned (a vector of `allDraws`). Together with `C15_reservoir_uniform`: over ideal
+    uniform draws every `n'`-subset of the remaining candidates is equally likely. -/
+theorem C15_fill_is_reservoir (st : List (Option Path) × List Path) (c : Bool) (s : Stream)
+    (sps : List (Option Path)) (rest : Stream) (reset : List Bool)
+    (h : assignFrom st c s = (.ok sps rest, reset)) :
+    ∃ n' js, n' = min (countNone st.1) st.2.length ∧ js ∈ allDraws n' (st.2.length - n') ∧
+      sps = fill st.1 ((reservoir n' js).map fun r => st.2.getD r default) := by
+  unfold assignFrom at h
+  simp only at h
+  have hcn := countSome_add_countNone st.1
+  have hk : ((st.1.length : Int) - (countSome st.1 : Nat)) = ((countNone st.1 : Nat) : Int) := by omega
+  rw [hk] at h
+  split at h
+  · simp at h
+  · simp at h
+  · rename_i n picks rest' hs
+    obtain ⟨hn, js, hjs, hres⟩ := C15_sample_is_reservoir (countNone st.1) st.2.length c s n picks rest' hs
+    split at h
+    · simp at h
+    · simp only [Prod.mk.injEq, AssignRes.ok.injEq] at h
+      refine ⟨n, js, hn, hjs, ?_⟩
+      rw [← h.1.1, ← hres, map_take]
+      congr 2
+      have := eq_map_range_getD st.2 (default : Path)
+      conv => lhs; rw [this]
+      rw [applyPicks_map]
 
 /-- there are `(k+1)(k+2)…(k+m)` draw vectors -/
 theorem C15_allDraws_length (k m : Nat) :
